@@ -6,3 +6,8 @@ require (
 	golang.org/x/tools v0.48.0
 	pgregory.net/rapid v1.3.0
 )
+
+require (
+	golang.org/x/mod v0.38.0 // indirect
+	golang.org/x/sync v0.22.0 // indirect
+)
